@@ -927,6 +927,58 @@ def run_reuse(block, ctx):
     ctx.sample({"callable": block[0]})
 
 
+# ---------------------------------------------------------------------------
+# clause: the previous call had ALMOST the same arguments (a result remembered
+# under a key that is too coarse - a rounded JDE, a rounded angle - is re-used).
+
+NEAR_SCALES = [{"E": 1e-6, "A": 1e-9, "F": 1e-12}, {"E": 4e-3, "A": 1e-4, "F": 1e-6}, {"E": 0.3, "A": 0.3, "F": 1e-3}]
+
+
+def perturb(tag, scale, sign):
+    if isinstance(tag, tuple) and tag and tag[0] == "E":
+        return ("E", tag[1] + sign * scale["E"])
+    if isinstance(tag, tuple) and tag and tag[0] == "A":
+        return ("A", tag[1] + sign * scale["A"])
+    if isinstance(tag, float):
+        return tag * (1.0 + sign * scale["F"]) if tag != 0.0 else sign * scale["F"]
+    return tag
+
+
+def check_near(case):
+    name = case["callable"]
+    S = SP.specs()
+    spec = S[name]
+    base = base_tags(spec)
+    if not any((isinstance(t, tuple) and t and t[0] in ("E", "A")) or isinstance(t, float) for t in base):
+        return []
+    if spec["mutator"]:
+        return []
+    ref = baseline().get(name)
+    out = []
+    for si, scale in enumerate(NEAR_SCALES):
+        for sign in (1.0, -1.0):
+            near = [perturb(t, scale, sign) for t in base]
+            do_call(name, spec, near, None)
+            got = result_of(name, spec, {})
+            if ref is not None and got != ref:
+                out.append("%s gives %r right after a call whose arguments differed by %r, alone in a fresh process %r"
+                           % (name, got, dict((k, sign * v) for k, v in scale.items()), ref))
+    return out
+
+
+def run_near(block, ctx):
+    for name in block:
+        ctx.evals += 2 * 2 * len(NEAR_SCALES)
+        ctx.states += 1
+        ctx.transitions += 2 * 2 * len(NEAR_SCALES)
+        ctx.nt_count += 1
+        for msg in check_near({"callable": name}):
+            ctx.viol({"callable": name}, msg, site="near_argument_history")
+        ctx.outcome(name)
+    ctx.traces += len(block)
+    ctx.sample({"callable": block[0], "scales": NEAR_SCALES})
+
+
 def clauses(tier):
     S = SP.specs()
     names = sorted(S)
@@ -941,6 +993,7 @@ def clauses(tier):
         Clause("pair_histories", order, run_pairs, replay_pair, floor=1000, shape="H"),
         Clause("copy_independence", chunks(copy_cases(), 8), run_copy, check_copy, floor=50, shape="H"),
         Clause("reused_arguments", chunks(order, 32), run_reuse, check_reuse, floor=100, shape="H"),
+        Clause("near_arguments", chunks(order, 32), run_near, check_near, floor=100, shape="H"),
         Clause("totality", tot_blocks, run_totality, replay_totality, floor=500, shape="H"),
         Clause("boundary_probes", chunks(probe_cases(), 4), run_probes, _replay_probe, floor=50, shape="H"),
     ]
